@@ -28,7 +28,7 @@ KANI = {
     'C01': [K('precis-core', CC + 'partial_cmp_total'), K('precis-core', 'stringclasses::verif_kani::non_scalar_never_valid', False),
             K('precis-profiles', 'usernames::verif_kani::width_values_scalar')],
     'C02': [K('precis-core', 'context::verif_kani::registry'), K('precis-core', 'context::verif_kani::registry_distinct'),
-            K('precis-core', CC + 'registry_matches_contextual')],
+            K('precis-core', CC + 'registry_matches_contextual')] + [K('precis-core', CC + t) for t in CTX_TABLES],
     'C03': [K('precis-core', 'context::verif_kani::registry'), K('precis-core', 'context::verif_kani::registry_distinct'),
             K('precis-core', CC + 'registry_matches_contextual')] + [K('precis-core', CC + t) for t in CTX_TABLES],
     'C05': [K('precis-profiles', 'common::verif_kani::tbl_zs'), K('precis-profiles', 'common::verif_kani::zs_space')],
